@@ -44,9 +44,9 @@ def cases(tier, seed):
             for nary in nary_opts:
                 for inp in ["cat-softmax", "cat-logsoftmax", "bin-sigmoid"]:
                     for k in [1, 2]:
-                        if k == 2 and nv >= 3:
+                        if k == 2 and nv >= 3 and not (thorough and tree[0] == "P"):
                             continue
-                        if k == 2 and nv == 2 and not isinstance(tree, int) and tree[0] == "M" and prod == "kro":
+                        if k == 2 and nv == 2 and not isinstance(tree, int) and tree[0] == "M" and prod == "kro" and not thorough:
                             continue
                         circ = dict(tree=tree, prod=prod, style=style, nary=nary, kin=k, ksum=k, kout=1, inp=inp, numbering="id", sumw="softmax")
                         for fold, optimize in FLAGS:
